@@ -89,3 +89,7 @@ Theorem C11_ristretto_decoding_injective : forall (K : Kernel) bs1 bs2 P, bytes_
   decompress K bs1 = Some P -> decompress K bs2 = Some P -> bs1 = bs2.
 Proof. exact decompress_injective. Qed.
 Print Assumptions C11_ristretto_decoding_injective.
+
+(* non-vacuity: a concrete byte string is accepted (32 zero bytes: the neutral element) *)
+Example C11_ristretto_nonvacuous : exists P, r_element_from_bytes K_ref (repeat 0 32) = Ok P.
+Proof. eexists. vm_compute. reflexivity. Qed.
